@@ -155,7 +155,7 @@ def shrink(pools, prop: str, res: dict, classes: set, budget_s: float = 150.0, m
 
 
 def write_replay(prop, seed, plan, viol, hist_digest, trace, tag="") -> str:
-    d = os.path.join(VERIF, "replays")
+    d = os.path.join(os.environ.get("MDPSIM_OUT", VERIF), "replays")
     os.makedirs(d, exist_ok=True)
     path = os.path.join(d, f"{prop}_{seed}{tag}.json")
     json.dump(
